@@ -31,12 +31,15 @@ ASSUMPTIONS = ["k-mer codes, positions and reference ids are unbounded naturals 
                "is not modelled; the generator keeps n^k < 2^63 and positions < 2^32)",
                "MincodeSelector threshold is compared exactly (rational) in the model; float64 rounding of the "
                "threshold for |code| > 2^53 is not modelled"]
-LEVEL_TEXT = ("proof for all inputs: two-pass fill never writes beyond the counted capacity and yields exactly the "
-              "per-slot filter of the inserted items (direct and bucketed, any n_buckets >= 1); match / "
-              "match_kmer_selection / count / lookup return exactly the equal k-mers; merge = concatenation; pickle "
-              "round trip; contiguous mask; syncmer filter and min-code threshold; rolling k-mer codes = positional "
-              "value. Minimizer: proved for all inputs below INT64_MAX per chunk pass lemmas where stated in notes, "
-              "otherwise partial. Known .pyx defects are modelled as written with _defect witnesses.")
+LEVEL_TEXT = ("proof for all inputs (Lean 4, no size bound): the two-pass fill never writes beyond the counted capacity "
+              "and yields exactly the per-slot filter of the inserted items (direct and bucketed, any n_buckets >= 1); "
+              "match / match_kmer_selection / count / the per-k-mer scan return exactly the stored entries with an equal "
+              "k-mer, unmasked; from_kmer_selection and mkTable (core of from_kmers/from_sequences) are exact; merge = "
+              "concatenation; contiguous mask; syncmer offset filter; min-code threshold. PARTIAL: the minimizer "
+              "(chunk-wise arg-cum-min = leftmost window minimum), pickle round trip, rolling k-mer codes and "
+              "from_positions are modelled and tied by correspondence + brute-force oracle but not proved for all "
+              "inputs; ScoreThresholdRule is oracle-only. Five .pyx defects are modelled as written (_defect witnesses) "
+              "and listed as known findings.")
 LEVEL_NOTE = ("ScoreThresholdRule.similar_kmers, numpy and pickle are exercised (oracle / correspondence), not proved; "
               "C memory safety beyond the proved capacity invariant is trusted")
 TECHNIQUE = "Lean 4 proof (induction over the insertion sequence with a per-slot invariant) + correspondence"
